@@ -28,6 +28,7 @@ class Suite:
     limit: int = 6000
     max_nodes: int = 99
     reduce: bool = True
+    require_tag: t.Optional[str] = None          # only cases whose reference evaluation carries this tag
 
 
 TERM = {'deadlock', 'livelock'}
@@ -51,6 +52,10 @@ def suites(prop: str, tier: str) -> t.List[Suite]:
         return [
             Suite('d0-async', GEN + ['corpus'], ['outcome', 'varies'], 0, ['async'], symptoms=sym),
             Suite('d0-thread', GEN + ['corpus'], ['outcome', 'varies'], 0, ['thread'], symptoms=sym),
+            Suite('shared-gated-complete', ['corpus', 'switch', 'oneof'], ['outcome', 'varies'], 0, ['async'], collab={'mode': 'gated', 'gate_kinds': ['node_complete']},
+                  symptoms=sym, plans='ok', max_nodes=8 if q else 9, require_tag='node-requested-from-two-scopes', limit=30000),
+            Suite('shared-gated-start', ['corpus', 'switch', 'oneof'], ['outcome', 'varies'], 0, ['async'], collab={'mode': 'gated', 'gate_kinds': ['node_start']},
+                  symptoms=sym, plans='ok', max_nodes=8 if q else 9, require_tag='node-requested-from-two-scopes', limit=30000),
             Suite('composed', ['oneofx'], ['outcome', 'varies'], 0, ['async'] if q else ['async', 'thread'], symptoms=sym),
             Suite('d1', ['corpus', 'rec'] if q else GEN + ['corpus'], ['outcome', 'varies'], 1, ['async', 'thread'] if not q else ['thread'],
                   symptoms=sym, max_nodes=4 if q else 6),
@@ -73,6 +78,10 @@ def suites(prop: str, tier: str) -> t.List[Suite]:
         return [
             Suite('d0-async', GEN + ['corpus'], ['kwargs'], 0, ['async'], symptoms=KW),
             Suite('d0-thread', GEN + ['corpus'], ['kwargs'], 0, ['thread'], symptoms=KW),
+            Suite('shared-gated-complete', ['corpus', 'switch', 'oneof'], ['kwargs'], 0, ['async'], collab={'mode': 'gated', 'gate_kinds': ['node_complete']},
+                  symptoms=KW, plans='ok', max_nodes=8 if q else 9, require_tag='node-requested-from-two-scopes', limit=30000),
+            Suite('shared-gated-start', ['corpus', 'switch', 'oneof'], ['kwargs'], 0, ['async'], collab={'mode': 'gated', 'gate_kinds': ['node_start']},
+                  symptoms=KW, plans='ok', max_nodes=8 if q else 9, require_tag='node-requested-from-two-scopes', limit=30000),
             Suite('composed', ['oneofx'], ['kwargs'], 0, ['async'] if q else ['async', 'thread'], symptoms=KW),
             Suite('d1', ['corpus', 'rec'] + ([] if q else ['plain', 'oneof', 'switch', 'mix']), ['kwargs'], 1, ['thread'], symptoms=KW, max_nodes=4 if q else 6),
         ] + ([] if q else [Suite('d2', ['corpus', 'rec', 'oneof', 'switch'], ['kwargs'], 2, ['thread'], symptoms=KW, max_nodes=5, limit=20000)])
@@ -80,6 +89,11 @@ def suites(prop: str, tier: str) -> t.List[Suite]:
         sym = COUNT | {'wrong-kwarg-value', 'none-as-kwarg'}
         return [
             Suite('yield-d0', GEN + ['corpus'], ['counts', 'kwargs'], 0, ['async'], collab={'mode': 'yield'}, symptoms=sym),
+            Suite('shared-gated-complete', ['corpus', 'switch', 'oneof'], ['counts', 'kwargs'], 0, ['async'], collab={'mode': 'gated', 'gate_kinds': ['node_complete']},
+                  symptoms=sym, plans='ok', max_nodes=8 if q else 9, require_tag='node-requested-from-two-scopes', limit=30000),
+            Suite('shared-gated-start', ['corpus', 'switch', 'oneof'], ['counts', 'kwargs'], 0, ['async'], collab={'mode': 'gated', 'gate_kinds': ['node_start']},
+                  symptoms=sym, plans='ok', max_nodes=8 if q else 9, require_tag='node-requested-from-two-scopes', limit=30000),
+
             Suite('yield-d1', ['corpus', 'switch', 'oneof'] + ([] if q else ['plain', 'rec', 'mix']), ['counts', 'kwargs'], 1, ['thread'],
                   collab={'mode': 'yield'}, symptoms=sym, max_nodes=5 if q else 6, plans='ok'),
         ] + ([] if q else [Suite('composed', ['oneofx'], ['counts', 'kwargs'], 0, ['async'], collab={'mode': 'yield'}, symptoms=sym)]) + [
@@ -134,6 +148,11 @@ def suites(prop: str, tier: str) -> t.List[Suite]:
     if prop == 'C14':
         return [
             Suite('instant', GEN + ['corpus'], ['events'], 0, ['async'], symptoms=None),
+            Suite('shared-gated-complete', ['corpus', 'switch', 'oneof'], ['events'], 0, ['async'], collab={'mode': 'gated', 'gate_kinds': ['node_complete']},
+                  symptoms=None, plans='ok', max_nodes=8 if q else 9, require_tag='node-requested-from-two-scopes', limit=30000),
+            Suite('shared-gated-start', ['corpus', 'switch', 'oneof'], ['events'], 0, ['async'], collab={'mode': 'gated', 'gate_kinds': ['node_start']},
+                  symptoms=None, plans='ok', max_nodes=8 if q else 9, require_tag='node-requested-from-two-scopes', limit=30000),
+
             Suite('yield', GEN + ['corpus'], ['events'], 0, ['thread'], collab={'mode': 'yield', 'two_managers': True}, symptoms=None),
         ] + ([] if q else [Suite('composed', ['oneofx'], ['events'], 0, ['async'], symptoms=None)]) + [
             Suite('gated', ['corpus', 'plain'] + ([] if q else ['oneof', 'switch', 'rec']), ['events'], 0, ['async'],
@@ -188,11 +207,15 @@ def work(arg: tuple) -> dict:
     suite = suites(prop, tier)[si]
     import time as _t
     _t0 = _t.time()
-    out = dict(cases=0, executions=0, transitions=0, states=0, capped=0, viol=[], internal=[], outcomes=0, sample=None, cpu=0.0)
+    out = dict(cases=0, executions=0, transitions=0, states=0, capped=0, viol=[], internal=[], outcomes=0, sample=None, cpu=0.0, stock=0)
     for mode in suite.modes:
         sp = EN.with_mode(spec, mode) if mode != 'async' else spec
         for plan in case_plans(sp, suite, fam)[chunk[0]::chunk[1]]:
             base = X.Case(sp, [plan], collab=dict(suite.collab), fam=fam)
+            if suite.require_tag is not None:
+                from mc import ref as _R
+                if suite.require_tag not in _R.evaluate(sp, plan, base.inputs[0]).tags:
+                    continue
             cases = [base]
             if suite.plans in ('cancel', 'cancel1'):
                 x0 = X.execute(base)
@@ -207,6 +230,24 @@ def work(arg: tuple) -> dict:
                 out['capped'] += bool(r.capped)
                 if r.internal:
                     out['internal'].append(f'{suite.name}/{fam}/{r.key}: {r.internal}')
+                nstock = out.setdefault('_nstock', {})
+                nstock[mode] = nstock.get(mode, 0) + 1
+                if fam == 'corpus' and suite.bound == 0 and case.cancel is None and suite.collab.get('mode') != 'gated' \
+                        and nstock[mode] <= 6 \
+                        and not any(nd.get('delay') for nd in sp['nodes'].values()):
+                    # conformance of the controlled loop: the first and the last d=0 schedule replayed on the stock loop
+                    for policy in ('first', 'last'):
+                        xv = X.execute(case, policy=policy)
+                        if xv.status != 'done':
+                            continue
+                        try:
+                            dg, _ = X.replay_on_stock_loop(case, xv.actions)
+                        except X.ReplayDivergence as e:
+                            out['internal'].append(f'stock-loop replay of {fam}/{r.key} diverged: {e}')
+                            continue
+                        if dg != X.untimed_digest(xv.log):
+                            out['internal'].append(f'stock-loop replay of {fam}/{r.key} ({policy}) gives a different trace than the controlled loop')
+                        out['stock'] += 1
                 if out['sample'] is None:
                     out['sample'] = dict(suite=suite.name, family=fam, case=r.case, executions=r.executions,
                                          outcome_classes=r.outcomes[:3], reference=r.ref_outcome)
@@ -240,7 +281,7 @@ def run(prop: str, tier: str, seed: int) -> dict:
                     items.append((prop, tier, si, fam, spec, (c, nch)))
                 progs.add(S.spec_hash(spec))
     items = RU.shuffled(items, seed)
-    tot = dict(cases=0, executions=0, transitions=0, states=0, capped=0, outcomes=0, cpu=0.0)
+    tot = dict(cases=0, executions=0, transitions=0, states=0, capped=0, outcomes=0, cpu=0.0, stock=0)
     per_suite: t.Dict[str, dict] = {}
     viol: t.List[dict] = []
     internal: t.List[str] = []
@@ -266,6 +307,7 @@ def run(prop: str, tier: str, seed: int) -> dict:
         programs=len(progs), cases=tot['cases'], executions=tot['executions'], evaluations=tot['executions'],
         states=max(tot['states'], 1), transitions=max(tot['transitions'], 1),
         traces_validated_against_impl=tot['executions'],
+        schedules_cross_validated_on_stock_loop=tot['stock'],
         distinct_outcomes=tot['outcomes'],
         deviation_bound_completed={name: ps['bound'] for name, ps in per_suite.items()},
         suites=per_suite, caps_hit=tot['capped'], exhaustive=tot['capped'] == 0,
@@ -273,7 +315,9 @@ def run(prop: str, tier: str, seed: int) -> dict:
         rule=('cases = (generated program, plan, configuration); every schedule with at most the stated number of '
               'deviations is executed on the real engine under the controlled loop; states = distinct '
               '(completed-work multiset, pending externals) digests at quiescent points; transitions = loop steps + deliveries; '
-              'traces_validated_against_impl = executions, all of which are executions of the implementation itself'),
+              'traces_validated_against_impl = executions, all of which are executions of the implementation itself; '
+              'schedules_cross_validated_on_stock_loop = corpus schedules (first and last d=0 schedule per case) replayed on the stock '
+              'asyncio loop with an identical trace'),
     )
     return dict(coverage=cov, violations=viol, internal=internal, level='model_checking',
                 assumptions=ASSUMPTIONS)
